@@ -7,3 +7,4 @@ import RaftWal.Props.C14
 #print axioms RaftWal.C14.panic_witness_unfixed
 #print axioms RaftWal.C14.closed_is_final
 #print axioms RaftWal.C14.close_releases_all
+#print axioms RaftWal.C14.rotation_rechecks_closed
